@@ -181,13 +181,22 @@ def _convert_ifexp(node: ast.IfExp) -> libsbml.ASTNode:
     return sbml_node
 
 
+def _unary_call(func: str, typ: int, node: ast.Call) -> libsbml.ASTNode:
+    sbml_node = libsbml.ASTNode(typ)
+    if func == "log10":
+        # MathML log takes the base as its first child
+        base = libsbml.ASTNode(libsbml.AST_REAL)
+        base.setValue(10.0)
+        sbml_node.addChild(base)
+    sbml_node.addChild(_convert_node(node.args[0]))
+    return sbml_node
+
+
 def _convert_direct_call(node: ast.Call) -> libsbml.ASTNode:
     func = cast(ast.Name, node.func).id
 
     if (typ := UNARY.get(func)) is not None:
-        sbml_node = libsbml.ASTNode(typ)
-        sbml_node.addChild(_convert_node(node.args[0]))
-        return sbml_node
+        return _unary_call(func, typ, node)
     if (typ := BINARY.get(func)) is not None:
         sbml_node = libsbml.ASTNode(typ)
         sbml_node.addChild(_convert_node(node.args[0]))
@@ -211,9 +220,7 @@ def _convert_library_call(node: ast.Call) -> libsbml.ASTNode:
 
     if parent in ("math", "np", "numpy"):
         if (typ := UNARY.get(attr)) is not None:
-            sbml_node = libsbml.ASTNode(typ)
-            sbml_node.addChild(_convert_node(node.args[0]))
-            return sbml_node
+            return _unary_call(attr, typ, node)
         if (typ := BINARY.get(attr)) is not None:
             sbml_node = libsbml.ASTNode(typ)
             sbml_node.addChild(_convert_node(node.args[0]))
